@@ -205,7 +205,38 @@ func c12Fixture(c *ipa.IPAConfig, seed int64) c12fix {
 
 // c12Free runs the bodies free-running (real goroutines) and compares with the sequential outputs; used
 // by the default flavour and, through -rununit, by the -race flavour.
+// c12ProcessStart: the very first constructions of the process, concurrently (once per process, before
+// anything else has touched the library): process-wide lazily shared state would be built under contention here.
+var c12StartOnce sync.Once
+
+func c12ProcessStart(r *core.Result) {
+	c12StartOnce.Do(func() {
+		if confVal != nil {
+			return // the configuration already exists in this process: no longer a first use
+		}
+		pws := make([]*ipa.PrecomputedWeights, 4)
+		if !timed(r, "c12.panic", "ipa.NewPrecomputedWeights", "4 concurrent first constructions in a fresh process", func() {
+			var wg sync.WaitGroup
+			for i := range pws {
+				wg.Add(1)
+				go func(i int) { defer wg.Done(); pws[i] = ipa.NewPrecomputedWeights() }(i)
+			}
+			wg.Wait()
+		}) {
+			return
+		}
+		want := core.Fingerprint(ipa.NewPrecomputedWeights())
+		for i, pw := range pws {
+			r.Evals++
+			if core.Fingerprint(pw) != want {
+				vio(r, "c12.interference", "ipa.NewPrecomputedWeights", fmt.Sprintf("4 concurrent first constructions in a fresh process (instance %d)", i), "the same tables as a construction executed alone", "different tables")
+			}
+		}
+	})
+}
+
 func c12Free(r *core.Result, seed int64, reps int) {
+	c12ProcessStart(r)
 	c := conf()
 	ops := c12Ops()
 	// Phase A — first use: on the freshly built configuration (nothing has been called yet in this process),
